@@ -31,33 +31,47 @@ theorem inS32_iff (x : Int) : inS32 x = true ↔ (-2147483648 ≤ x ∧ x ≤ 21
 theorem inS64_iff (x : Int) : inS64 x = true ↔ (-9223372036854775808 ≤ x ∧ x ≤ 9223372036854775807) := by
   simp [inS64]
 
-/-! ### F_INDEX / F_RINDEX -/
+/-! ### F_INDEX / F_RINDEX
 
-theorem g_index_arr (i size : Int) (hs : 0 ≤ size) (hs2 : size ≤ 65535)
-    (h1 : guard_index_arr_neg i = false) (h2 : guard_index_arr i size = false) : 0 ≤ i ∧ i < size := by
-  simp [guard_index_arr_neg, guard_index_arr, trunc32] at h1 h2; omega
+The guards test the 64-bit operand `n`; the element accessed is `(int)n` (F_INDEX) or `size - (int)n` (F_RINDEX).
+Each lemma concludes about the index that the C code uses. -/
 
-theorem g_rindex_arr (i size : Int) (hs : 0 ≤ size) (hs2 : size ≤ 65535)
-    (h : guard_rindex_arr i size = false) : 0 ≤ i ∧ i < size := by
-  simp [guard_rindex_arr, trunc32] at h; omega
+theorem g_index_arr (n size : Int) (hs : 0 ≤ size) (hs2 : size ≤ 65535)
+    (h1 : guard_index_arr_neg n = false) (h2 : guard_index_arr n size = false) :
+    0 ≤ trunc32 n ∧ trunc32 n < size := by
+  simp [guard_index_arr_neg, guard_index_arr, trunc64] at h1 h2
+  unfold trunc32; omega
+
+theorem g_rindex_arr (n size : Int) (hs : 0 ≤ size) (hs2 : size ≤ 65535)
+    (h : guard_rindex_arr n size = false) :
+    0 ≤ size - trunc32 n ∧ size - trunc32 n < size ∧ inS32 (size - trunc32 n) = true := by
+  simp [guard_rindex_arr, trunc64] at h
+  simp only [inS32_iff]
+  unfold trunc32; omega
 
 /-- strings: the index may equal the length (the NUL is read) -/
-theorem g_index_str (i slen : Int) (hs : 0 ≤ slen)
-    (h : guard_index_str i slen = false) : 0 ≤ i ∧ i ≤ slen := by
-  simp [guard_index_str, trunc32] at h; omega
+theorem g_index_str (n slen : Int) (hs : 0 ≤ slen) (hs2 : slen ≤ 2147483647)
+    (h : guard_index_str n slen = false) : 0 ≤ trunc32 n ∧ trunc32 n ≤ slen := by
+  simp [guard_index_str, trunc64] at h
+  unfold trunc32; omega
 
-theorem g_rindex_str (i slen : Int) (hs : 0 ≤ slen)
-    (h : guard_rindex_str i slen = false) : 0 ≤ i ∧ i ≤ slen := by
-  simp [guard_rindex_str, trunc32] at h; omega
+theorem g_rindex_str (n slen : Int) (hs : 0 ≤ slen) (hs2 : slen ≤ 2147483647)
+    (h : guard_rindex_str n slen = false) :
+    0 ≤ trunc32 (truncU64 (slen - n)) ∧ trunc32 (truncU64 (slen - n)) ≤ slen := by
+  simp [guard_rindex_str, trunc64] at h
+  unfold trunc32 truncU64; omega
 
-/-- buffers: the guard accepts i = size (`>` instead of `>=`): only `i ≤ size` follows -/
-theorem g_index_buf (i size : Int) (hs : 0 ≤ size)
-    (h : guard_index_buf i size = false) : 0 ≤ i ∧ i ≤ size := by
-  simp [guard_index_buf, trunc32] at h; omega
+/-- buffers: the index is strictly below the size (the `>` that accepted i = size is repaired) -/
+theorem g_index_buf (n size : Int) (hs : 0 ≤ size) (hs2 : size ≤ 2147483647)
+    (h : guard_index_buf n size = false) : 0 ≤ trunc32 n ∧ trunc32 n < size := by
+  simp [guard_index_buf, trunc64] at h
+  unfold trunc32; omega
 
-theorem g_rindex_buf (i size : Int) (hs : 0 ≤ size)
-    (h : guard_rindex_buf i size = false) : 0 ≤ i ∧ i ≤ size := by
-  simp [guard_rindex_buf, trunc32] at h; omega
+theorem g_rindex_buf (n size : Int) (hs : 0 ≤ size) (hs2 : size ≤ 2147483647)
+    (h : guard_rindex_buf n size = false) :
+    0 ≤ trunc32 (truncU32 (size - trunc32 n)) ∧ trunc32 (truncU32 (size - trunc32 n)) < size := by
+  simp [guard_rindex_buf, trunc64] at h
+  unfold trunc32 truncU32; omega
 
 /-! ### push_indexed_lvalue -/
 
@@ -82,6 +96,17 @@ theorem g_sindex_arr (ind size : Int) (hs : 0 ≤ size) (hs2 : size ≤ 65535)
   simp [guard_sindex_arr, trunc64] at h; omega
 
 /-! ### push_lvalue_range -/
+
+/-- the 64-bit pre-check keeps the operand where `(int)n`, `size - (int)n` and `++ind2` are exact -/
+theorem g_lrange_ind2_pre (n size : Int) (hs : 0 ≤ size) (hs2 : size ≤ 2147483646)
+    (h : guard_lrange_ind2_pre n size = false) : -1 ≤ n ∧ n ≤ size + 1 := by
+  unfold guard_lrange_ind2_pre trunc64 trunc32 at h
+  simp only [Bool.or_eq_false_iff, decide_eq_false_iff_not] at h
+  omega
+
+theorem g_lrange_ind1_pre (n size : Int) (hs : 0 ≤ size) (hs2 : size ≤ 2147483647)
+    (h : guard_lrange_ind1_pre n size = false) : 0 ≤ n ∧ n ≤ size := by
+  simp [guard_lrange_ind1_pre, trunc64] at h; omega
 
 theorem g_lrange_ind2 (i2 size : Int) (h0 : -2147483648 ≤ i2 + 1) (h1 : i2 + 1 ≤ 2147483647)
     (h : guard_lrange_ind2 i2 size = false) : 0 ≤ i2 + 1 ∧ i2 + 1 ≤ size := by
@@ -113,6 +138,24 @@ theorem g_slice (size from0 to0 : Int) (hs : 0 ≤ size) (hs2 : size ≤ 65535) 
   intro h
   by_cases h1 : from0 < 0 <;> by_cases h2 : to0 ≥ (size + 2147483648) % 4294967296 - 2147483648 <;>
     simp [h1, h2] at h ⊢ <;> omega
+
+/-- the 64-bit clamps of f_range in front of slice_array leave values that survive `(int)` unchanged -/
+theorem g_range_arr_clamps (size from1 to1 : Int) (hs : 0 ≤ size) (hs2 : size ≤ 65535) :
+    let from2 := if guard_range_arr_from_neg from1 then 0 else from1
+    let to2 := if guard_range_arr_to_hi to1 size then size - 1 else to1
+    let to3 := if guard_range_arr_to_lo to2 then -1 else to2
+    let from3 := if guard_range_arr_from_hi from2 size then size else from2
+    0 ≤ from3 ∧ from3 ≤ size ∧ -1 ≤ to3 ∧ to3 < size := by
+  simp only [guard_range_arr_from_neg, guard_range_arr_to_hi, guard_range_arr_to_lo, guard_range_arr_from_hi, trunc64, trunc32]
+  by_cases h1 : from1 < 0 <;> by_cases h2 : to1 ≥ size <;> by_cases h3 : to1 < -1 <;> by_cases h4 : from1 > size <;>
+    simp [h1, h2, h3, h4] <;> (try split) <;> omega
+
+theorem g_erange_arr_clamps (size from1 : Int) (hs : 0 ≤ size) (hs2 : size ≤ 65535) :
+    let from2 := if guard_erange_arr_from_neg from1 then 0 else from1
+    let from3 := if guard_erange_arr_from_hi from2 size then size else from2
+    0 ≤ from3 ∧ from3 ≤ size := by
+  simp only [guard_erange_arr_from_neg, guard_erange_arr_from_hi, trunc64]
+  by_cases h1 : from1 < 0 <;> by_cases h4 : from1 > size <;> simp [h1, h4] <;> (try split) <;> omega
 
 /-! ### value stack -/
 
